@@ -24,5 +24,5 @@ CONSTANTS
   FlushRows = 0
   EqualIgnoresAbsence = FALSE
   EmptyNameValueIsLabel = TRUE
-INVARIANTS CoalesceLemma QueryMeaning ListingMeaning ServerLabelsKept
+INVARIANTS CoalesceLemma QueryMeaning ListingMeaning ServerLabelsKept WireRoundTrip
 CHECK_DEADLOCK FALSE
